@@ -305,11 +305,12 @@ func c04subsets(max int) [][]string {
 	return out
 }
 
-// c04keylists: explicit key lists over {a, b, missing} with and without skip-missing.
+// c04keylists: explicit key lists over {a, b, missing, a generated path} with and without skip-missing.
 func c04keylists(rep *lib.Report) {
 	L := 64
-	files := map[string][]byte{"a": pattern("pos", 70, L), "b": pattern("rep", 10, L)}
-	alphabet := []string{"a", "b", "missing"}
+	// ".datamon/gen" is present in the source: a generated path is never uploaded, with or without skip-missing
+	files := map[string][]byte{"a": pattern("pos", 70, L), "b": pattern("rep", 10, L), ".datamon/gen": []byte("left by an earlier download")}
+	alphabet := []string{"a", "b", "missing", ".datamon/gen"}
 	var lists [][]string
 	var gen func(l []string)
 	gen = func(l []string) {
@@ -329,13 +330,15 @@ func c04keylists(rep *lib.Report) {
 			desc := fmt.Sprint(rp)
 			hasMissing, distinct := false, map[string]bool{}
 			for _, k := range l {
-				if k == "missing" {
+				switch k {
+				case "missing":
 					hasMissing = true
-				} else {
+				case ".datamon/gen":
+				default:
 					distinct[k] = true
 				}
 			}
-			repeated := len(distinct) < len(l)-strings.Count(strings.Join(l, ","), "missing")
+			repeated := len(distinct) < len(l)-strings.Count(strings.Join(l, ","), "missing")-strings.Count(strings.Join(l, ","), ".datamon/gen")
 			shape := fmt.Sprintf("missing=%v|repeated=%v|skip=%v", hasMissing, repeated, skip)
 			w := NewWorld()
 			st := w.Stores()
@@ -432,7 +435,7 @@ func TestC04(t *testing.T) {
 	if lib.Thorough() {
 		maxSub, offsets, Ls, concs = 4, []int{0, 1, 2, 3, 4, 5, 6, 7, 8, 9}, []int{64, 4096}, []int{1, 2, 20}
 	}
-	rep.Rule = fmt.Sprintf("all subsets of <=%d paths of %v x %d size/content assignments (sizes {0,1,L,L+1,3L} x 2 content classes, rotated so that every file sees every variant and duplicates occur) x L in %v x concurrency %v x entries-per-index-file {2 (hook), 1000 (public API)} (+ localfs source/destination); per bundle: entries one-to-one with exact size and reference key, full download, EVERY subset predicate, PublishFile of every path and an absent one; all explicit key lists of length <=3 over {a,b,missing} x skip-missing; index-file boundary sizes through the public API; distinct = distinct trees / key lists", maxSub, c04paths, len(offsets), Ls, concs)
+	rep.Rule = fmt.Sprintf("all subsets of <=%d paths of %v x %d size/content assignments (sizes {0,1,L,L+1,3L} x 2 content classes, rotated so that every file sees every variant and duplicates occur) x L in %v x concurrency %v x entries-per-index-file {2 (hook), 1000 (public API)} (+ localfs source/destination); per bundle: entries one-to-one with exact size and reference key, full download, EVERY subset predicate, PublishFile of every path and an absent one; all explicit key lists of length <=3 over {a, b, missing, a generated path present in the source} x skip-missing; index-file boundary sizes through the public API; distinct = distinct trees / key lists", maxSub, c04paths, len(offsets), Ls, concs)
 	var cases []c04case
 	for _, s := range c04subsets(maxSub) {
 		for _, o := range offsets {
